@@ -46,6 +46,10 @@ def judge(pid, files, vals, verdict, kinds):
 
 
 def run(tier, seed, selftest=False, replay=None):
+    if replay:
+        import ev_common
+        if ev_common.is_ev_case(replay):
+            return ev_common.replay_ev(PID, ["find_subtypes", "find_irrelevant"], replay)
     t0 = time.time()
     T = lambda what: os.environ.get("VERIF_VERBOSE") and print("[c09] %s at %.1fs" % (what, time.time() - t0), flush=True)
     rnd = random.Random(seed)
